@@ -228,6 +228,7 @@ def injected(draw, rule=None):
                                 cands.append((r, o))
             if not cands:
                 # give both tensors an extra channel rank so that there is something to flatten with
+                spec["rank_order"] = {}
                 for d in spec["decl"]:
                     if d[0] in ("I", "F", "A"):
                         d[1].append("C")
